@@ -1,11 +1,114 @@
 import Oracle.Util
+import Wz.Model.Sizer
+import Wz.Model.ModuleID
+import Wz.Model.Cache
 namespace Oracle.C12
-open Oracle
+open Oracle Wz.Gen.Memory Wz.Model.Sizer Wz.Model.ModuleID Wz.Model.Cache
 
-/-- Topic state (stub: no model behind this topic yet). -/
-abbrev St := Unit
-def init : St := ()
+/-- settings of one runtime of a cache machine: termination flag, and the listener object its factory
+hands out (`none` = no factory in the compile context) -/
+structure RtSet where
+  term : Bool
+  lst : Option Nat
 
-def step (st : St) (_args : List String) : St × String := (st, "bad-op")
+structure Machine where
+  rts : List RtSet
+  useDisk : Bool
+  variant : Variant
+  st : St String String
+
+abbrev St := List (Nat × Machine)
+def init : St := []
+
+def parseMax (s : String) : Option (Option (BitVec 32)) :=
+  if s == "-" then some none else (parseNat s).map (fun v => some (BitVec.ofNat 32 v))
+
+/-- `-` = no factory; otherwise one character per local function: `n` = nil listener, a digit = object id -/
+def parseListeners (s : String) : Option (Option (List (Option Nat))) :=
+  if s == "-" then some none
+  else
+    (s.toList.mapM (fun c => if c == 'n' then some none else if c.isDigit then some (some (c.toNat - '0'.toNat)) else none)).map some
+
+def hexOf (l : List Nat) : String := bytesToHex l
+
+def mkReq (bin : Nat) (ls : Option (List (Option Nat))) (term : Bool) : Req :=
+  { bin := [bin], listeners := ls, term := term, memLimit := 0, capFromMax := false, debugInfo := false,
+    customSections := false, hasDwarf := false }
+
+def rtReq (rts : List RtSet) (rt b : Nat) : Req :=
+  match rts[rt]? with
+  | none => mkReq b none false
+  | some r => mkReq b (r.lst.map (fun i => [some i])) r.term
+
+def paramsOf (rts : List RtSet) (useDisk : Bool) : Params String String :=
+  { key := fun rt b => s!"b{b}{keyClass (rtReq rts rt b)}",
+    code := fun rt b => s!"b{b}{keyClass (rtReq rts rt b)}",
+    lst := fun rt b => (rtReq rts rt b).lst,
+    useDisk := useDisk }
+
+def showLst (l : Lst) : String :=
+  if l.isEmpty then "-" else String.ofList (l.map (fun o => match o with | none => 'n' | some i => hexDigit (i % 16)))
+
+def showOut : Out String → String
+  | .compiled => "compiled"
+  | .closed => "closed"
+  | .noHandle => "nohandle"
+  | .failed => "failed"
+  | .ran c l => s!"ran {c} {showLst l}"
+
+def parseRt (s : String) : Option RtSet :=
+  match s.toList with
+  | ['t', t, 'l', l] =>
+    let tb := if t == '1' then some true else if t == '0' then some false else none
+    let lo : Option (Option Nat) := if l == '-' then some none else if l.isDigit then some (some (l.toNat - '0'.toNat)) else none
+    match tb, lo with
+    | some tb, some lo => some { term := tb, lst := lo }
+    | _, _ => none
+  | _ => none
+
+def step (st : St) (args : List String) : St × String :=
+  match args with
+  | ["variant"] =>
+    let r := memorySizer 5#32 true 1#32 (some 10#32)
+    if r == (1#32, 10#32, 10#32) then (st, "asis")
+    else if r == (1#32, 5#32, 5#32) then (st, "fixed") else (st, "neither")
+  | ["decode", limit, cfm, mn, mx] =>
+    match parseNat limit, parseBool cfm, parseNat mn, parseMax mx with
+    | some l, some c, some m, some mo =>
+      match decodeWith memorySizer (BitVec.ofNat 32 l) c (BitVec.ofNat 32 m) mo with
+      | some r => (st, s!"ok {r.1.toNat} {r.2.toNat}")
+      | none => (st, "err")
+    | _, _, _, _ => (st, "bad-op")
+  | ["indep", limit, mn, mx] =>
+    match parseNat limit, parseNat mn, parseMax mx with
+    | some l, some m, some mo =>
+      (st, b2s (decide (CapacityIndependent memorySizer (BitVec.ofNat 32 l) (BitVec.ofNat 32 m) mo)))
+    | _, _, _ => (st, "bad-op")
+  | ["key", term, ls] =>
+    match parseBool term, parseListeners ls with
+    | some t, some lo =>
+      let r := mkReq 0 lo t
+      (st, s!"key={hexOf (encL 0 r.presence ++ [b2n r.term])} cg={keyClass r} wl={b2s (codegenInputs r).withListener}")
+    | _, _ => (st, "bad-op")
+  | "cnew" :: id :: disk :: rebind :: refc :: rts =>
+    match parseNat id, parseBool disk, parseBool rebind, parseBool refc, rts.mapM parseRt with
+    | some id, some d, some rb, some rc, some rs =>
+      (assocSet st id { rts := rs, useDisk := d, variant := { rebind := rb, refcount := rc }, st := Wz.Model.Cache.St.init }, "ok")
+    | _, _, _, _, _ => (st, "bad-op")
+  | ["cop", id, op, rt, b] =>
+    match parseNat id, parseNat rt, parseNat b with
+    | some id, some rt, some b =>
+      match assocGet st id with
+      | none => (st, "bad-op")
+      | some m =>
+        let o : Option Op := if op == "compile" then some (.compile rt b) else if op == "inst" then some (.instantiate rt b)
+          else if op == "close" then some (.closeCompiled rt b) else none
+        match o with
+        | none => (st, "bad-op")
+        | some o =>
+          let (s', out) := Wz.Model.Cache.step (paramsOf m.rts m.useDisk) m.variant m.st o
+          (assocSet st id { m with st := s' }, showOut out)
+    | _, _, _ => (st, "bad-op")
+  | _ => (st, "bad-op")
 
 end Oracle.C12
